@@ -108,6 +108,36 @@ Section Lts.
     end.
   Definition completes (fuel : nat) (c : config) (tr : list (nat * E)) : bool :=
     existsb all_done (final_from fuel [c] tr).
+  (* ---- the same with duplicate elimination (needed when threads have many internal steps) ---- *)
+  Variable ceqb : config -> config -> bool.
+  Definition cmem (c : config) (l : list config) : bool := existsb (ceqb c) l.
+  Fixpoint cadd_all (new seen : list config) : list config * list config :=   (* (really new, seen') *)
+    match new with
+    | [] => ([], seen)
+    | c :: r => if cmem c seen then cadd_all r seen
+                else let '(n, s) := cadd_all r (c :: seen) in (c :: n, s)
+    end.
+  Definition tau_succ (c : config) : list config :=
+    flat_map (fun t => match step c t with Some (c', None) => [c'] | _ => [] end) (tids c).
+  Fixpoint closure_d (fuel : nat) (frontier seen : list config) : list config :=
+    match fuel with
+    | O => seen
+    | S f =>
+        match frontier with
+        | [] => seen
+        | _ => let '(n, s) := cadd_all (flat_map tau_succ frontier) seen in closure_d f n s
+        end
+    end.
+  Definition tau_closure_d (fuel : nat) (cs : list config) : list config :=
+    let '(n, s) := cadd_all cs [] in closure_d fuel n s.
+  Definition dedup (cs : list config) : list config := fst (cadd_all cs []).
+
+  Fixpoint accepts_anon_d (fuel : nat) (cs : list config) (tr : list (option nat * E)) : list config :=
+    match tr with
+    | [] => tau_closure_d fuel cs
+    | (Some t, e) :: r => accepts_anon_d fuel (dedup (fire t e (tau_closure_d fuel cs))) r
+    | (None, e) :: r => accepts_anon_d fuel (dedup (fire_any e (tau_closure_d fuel cs))) r
+    end.
 End Lts.
 
 Arguments glob {G L}. Arguments thr {G L}.
